@@ -126,6 +126,15 @@ func RunScripts(c *hlib.Ctx, tag string, scripts []Script) {
 		if sc.Gop {
 			c.Count("script-cachegop")
 		}
+		if sc.MaxQ > 0 {
+			c.Count("script-small-backlog-limit")
+		}
+		for _, e := range exp {
+			if strings.Contains(e, "dis=1") {
+				c.Count("script-reaches-discarding")
+				break
+			}
+		}
 		last := exp[len(exp)-1]
 		if strings.Contains(last, "dis=1") {
 			c.Count("script-ends-discarding")
